@@ -167,11 +167,17 @@ def cpu_guarded(fn, case, limit_s):
 
     old = signal.signal(signal.SIGVTALRM, on_timer)
     signal.setitimer(signal.ITIMER_VIRTUAL, limit_s)
+    # backstop for a loop inside the C extension, where no Python handler can run: SIGPROF with its default action
+    # kills the worker after twice the limit; the runner then reports the shard as 'process-crash'
+    old_prof = signal.signal(signal.SIGPROF, signal.SIG_DFL)
+    signal.setitimer(signal.ITIMER_PROF, 2 * limit_s + 60)
     try:
         return fn(case)
     except _CaseCpuTimeout:
         raise Violation('did-not-terminate', 'the case used more than %d s of CPU time (typical: well under a second) and was abandoned' % limit_s, case)
     finally:
+        signal.setitimer(signal.ITIMER_PROF, 0)
+        signal.signal(signal.SIGPROF, old_prof)
         signal.setitimer(signal.ITIMER_VIRTUAL, 0)
         signal.signal(signal.SIGVTALRM, old)
 
